@@ -1,5 +1,6 @@
 import Cfdm.Driver.Parse
 import Cfdm.Model.Groups
+import Cfdm.Model.GroupsMulti
 namespace Cfdm.Driver.C11
 open Cfdm.Driver Cfdm.Groups
 open Cfdm.Generated.FlatteningRules (Rules flatteningRules)
@@ -13,6 +14,9 @@ open Cfdm.Generated.FlatteningRules (Rules flatteningRules)
 * `C11.vis  ncvar=/a/q ncdim=/a/lat`              the writer's string check + both group paths
 * `C11.grp  name=/a/b/x set=/g/h|-`               `_nc_set`, group split, `_nc_set_groups`, writer parent group
 * `C11.place dims=/a:lat;… vars=/a/g:ta:0,1:coordinates>v2,cell_methods>d0;…`
+* `C11.multi glob=comment,history|- fields=/a|q0|comment>one,foo>bar|comment>-,foo>baz;/a/b|q1|-|- old=0|1`
+         several fields written by one call: the groups of the dataset, the attributes of every
+         group, the global attributes and the attributes of every data variable
 -/
 
 def nm (s : String) : List Char := s.toList
@@ -245,6 +249,33 @@ def runGattr (kv : KV) : String :=
     let w := writeProps grp g p ga
     s!"glob={showPairs w.glob} grp={showPairs w.grp} var={showPairs w.var}"
 
+
+def parseMField (s : String) : Option MField :=
+  match s.splitOn "|" with
+  | [g, b, p, ga] => do
+    let g ← parsePath g
+    let p ← parsePairs p
+    let ga ← parseGA ga
+    some { grp := g, base := nm b, props := p, ga := ga }
+  | _ => none
+
+/-- `C11.multi glob=… fields=… old=0|1` -/
+def runMulti (kv : KV) : String :=
+  match (do
+    let g ← kv.get? "glob"
+    let fs ← kv.get? "fields"
+    let fs ← if fs.isEmpty then none else (fs.splitOn ";").mapM parseMField
+    let old ← parseBool (← kv.get? "old")
+    some ((if g == "-" then [] else parseNames g), fs, old)) with
+  | none => "bad-op"
+  | some (d, fs, old) =>
+    let w := if old then writeFieldsNOld d fs else writeFieldsN d fs
+    let gs := w.tree.groupPaths
+    let groups := (gs.map showPath).toArray.qsort (· < ·) |>.toList
+    let gattrs := ((gs.filter (fun q => !q.isEmpty)).map (fun q => showPath q ++ ":" ++ showPairs (attrsAt w.tree q))).toArray.qsort (· < ·) |>.toList
+    let vars := ((fs.zip w.vars).map (fun fv => showElem fv.1.grp fv.1.base ++ ":" ++ showPairs fv.2)).toArray.qsort (· < ·) |>.toList
+    s!"groups=[{String.intercalate ";" groups}] gattrs=[{String.intercalate ";" gattrs}] glob={showPairs w.glob} vars=[{String.intercalate ";" vars}]"
+
 def run (sub : String) (kv : KV) : String :=
   match sub with
   | "res" => runRes kv
@@ -254,6 +285,7 @@ def run (sub : String) (kv : KV) : String :=
   | "place" => runPlace kv
   | "cv" => runCv kv
   | "gattr" => runGattr kv
+  | "multi" => runMulti kv
   | _ => "bad-op"
 
 end Cfdm.Driver.C11
